@@ -189,8 +189,12 @@ def run_impl(case, emitter=None):
     world = h.world = fakezmq.World(); fakezmq.install(world)
     topo = case.get('topo', 'both')
     cfg = dict(id='f', outputs_metrics=False, outputs_filter=False, mq_log=False)
-    if topo in ('both', 'out'): cfg['outputs'] = OUT
+    if topo in ('both', 'both2', 'out'): cfg['outputs'] = OUT
     if topo == 'both': cfg['sources'] = UP
+    if topo == 'both2':
+        # a join whose FIRST-listed source is gone (nobody bound there, its request pipe is full: every push raises Again) beside the live upstream:
+        # the exit announcement still has to reach the live one
+        cfg['sources'] = ['tcp://127.0.0.1:6090', UP]; world.push_hwm = 0
     if s.get('ctor_raises'): cfg['mq_log'] = 'bogus'           # normalize_config raises ValueError
     peers = []
     if s.get('mq_raises'):
